@@ -158,6 +158,10 @@ func ZZ_C01_Linearizable() {
 	}
 	OPS := vfConfig("OPS", 2)
 	vfSetPreemptions(vfConfig("PRE", 1))
+	race := vfConfig("POOL", 0) == 0 // the happens-before monitor also runs here (pool off: the default configuration)
+	if race {
+		vfSetRaceDetector(true)
+	}
 	h := &zzHist{}
 	done := make(chan int, 2)
 	var tagA, tagB uint64 = 100, 200
@@ -167,6 +171,9 @@ func ZZ_C01_Linearizable() {
 	<-done
 	vfSetPreemptions(0)
 	vfReach("history-complete")
+	if race {
+		vfAssertNoRace("no-data-race-in-history")
+	}
 	vfAssert("history-is-linearizable", h.linearizable())
 	// after everything returned: a final read agrees with some linearization too
 	o := h.begin(1, 1, 0)
